@@ -27,7 +27,9 @@ FILES = ["a.txt", "b.html", "dir/file.txt", "dir/sub/deep.txt", "dir/.abstract",
          # metadata that is not valid UTF-8 (Latin-1 names and abstracts)
          "dir/.names", "a.txt.abstract", ".cap/a.txt",
          # member paths that contain the archive's own file name
-         "XTREEX.zip.txt", "dir/XTREEX.zip.txt", "mirror/XTREEX.zip.d/x.txt"]
+         "XTREEX.zip.txt", "dir/XTREEX.zip.txt", "mirror/XTREEX.zip.d/x.txt",
+         # the tail of '/outside/data.txt' (an object of the site outside the archive) once the archive's selector length is cut off
+         "ta.txt", "hing.txt"]
 
 
 def gen_members(rng):
@@ -37,7 +39,8 @@ def gen_members(rng):
         if f.endswith("/"):
             ms.append((f, "D", b""))
         elif f.endswith("gophermap"):
-            ms.append((f, "F", b"info line\n0Inner\tinner.txt\n1Up\t/\n"))
+            # absolute selectors in an archive's gophermap mean objects of the site, not members whose names happen to be their tails
+            ms.append((f, "F", b"info line\n0Inner\tinner.txt\n1Up\t/\n0Out\t/outside/data.txt\n1OutDir\t/outside\n0Gone\t/outside/nothing.txt\n"))
         elif f.endswith(".Links"):
             ms.append((f, "F", b"Name=Remote\nType=1\nPath=/r\nHost=example.org\nPort=70\n"))
         elif f == "dir/.names":
@@ -163,6 +166,7 @@ def run(ctx):
         try:
             zpath = os.fsdecode(tree.path("XTREEX.zip"))
             write_zip(zpath, members, False)
+            tree.write("outside/data.txt", b"o" * 3000)
             cfg = pyg.make_config(tree.root, pyg.FULL_HANDLERS, **{"handlers.dir.DirHandler|cachetime": "0", "handlers.ZIP.ZIPHandler|enabled": "true"})
             pyg.reset_globals()
             try:
@@ -214,6 +218,21 @@ def run(ctx):
                 except Exception as e:  # noqa
                     k, ld = "EXC:" + type(e).__name__, None
                 impl.append((k, ld))
+            # selectors that are not below the archive are the underlying file system's
+            for osel, want in (("/outside/data.txt", "f"), ("/outside", "d"), ("/outside/nothing.txt", "-"), ("/XTREEX.zipper/a.txt", "-"), ("/a.txt", "-")):
+                try:
+                    got = "d" if vfs.isdir(osel) else "f" if vfs.isfile(osel) else "-"
+                    if vfs.exists(osel) != (got != "-"):
+                        got += "?"
+                    if got == "f" and vfs.stat(osel)[6] != 3000:
+                        got += ":size"
+                except Exception as e:  # noqa
+                    got = "EXC:" + type(e).__name__
+                res.evaluations += 1
+                if got != want:
+                    res.violation("C16:outside-selector-answered-by-member", "a selector outside the archive was answered from the archive's members",
+                                  {"members": members, "selector": osel}, observed=got, required=want,
+                                  replay={"members": [(n, kk, d.decode("latin-1")) for n, kk, d in members], "path": "gm", "gplus": "$", "protocol": "gopherp"})
             model_lines.append("zipindex\t" + (" ".join(mm) or "~") + "\t" + enc_list(qs))
             checks.append(("zipindex", {"members": members, "queries": qs}, impl))
             res.evaluations += len(qs)
@@ -223,6 +242,8 @@ def run(ctx):
             # ---- oracle: extracted tree vs archive, through the server --------------------
             extract(tree, "XTREEX", members)
             sels = [""] + [q for q in qs if q and "//" not in q]
+            # a final '/.' names the same object on disk: the archive must answer alike
+            sels += [".", "dir/.", "docs/.", "a.txt/.", "gm/."]
             for q in sels:
                 for p in (["gopher", "gopherp"] if rng.random() < 0.7 else ["http", "gemini"]):
                     gp = rng.choice(["+", "$", "!"]) if p == "gopherp" else "+"
@@ -317,6 +338,7 @@ def replay(data):
         members = [(n, k, d.encode("latin-1")) for n, k, d in rp["members"]]
         write_zip(os.fsdecode(tree.path("XTREEX.zip")), members, False)
         extract(tree, "XTREEX", members)
+        tree.write("outside/data.txt", b"o" * 3000)
         cfg = pyg.make_config(tree.root, pyg.FULL_HANDLERS, **{"handlers.dir.DirHandler|cachetime": "0", "handlers.ZIP.ZIPHandler|enabled": "true"})
         for pre in ("/XTREEX", "/XTREEX.zip"):
             print(pre, _ask(cfg, tree, rp.get("protocol", "gopher"), pre + ("/" + rp["path"] if rp.get("path") else ""), rp.get("gplus", "+")))
